@@ -122,6 +122,47 @@ def run(chk):
                 else:
                     ev.update(len_ok=False, dev=0, par_dev=0)
                 batch.add(ev, {'cls': name, 'dt': dt, 'N': N, 'nfft': nfft, 'c': c, 'live': True, 'seed': chk.seed})
+    # long records (past 4096 samples, the library's default NFFT; the thorough tier also past 8192): NFFT below and above
+    # the record length where the estimator admits it, transform lengths with a large prime factor, and the default
+    # value 4096 passed explicitly
+    def next_prime(n):
+        while any(n % d == 0 for d in range(2, int(n ** 0.5) + 1)):
+            n += 1
+        return n
+    for NL in ((4300,) if quick else (4300, 8300)):
+        for dt in ('real', 'complex'):
+            x = zoo.signal(rng, NL, dt == 'complex', 'arma') + 0.3
+            pr = next_prime(NL)
+            long_forms = [
+                ('speriodogram(long)', lambda n: sp.speriodogram(x.copy(), NFFT=n, detrend=False, scale_by_freq=False, sampling=1.0, window='hann'),
+                 [(pr, 3), (NL, 2), (NL, 13)]),      # (13: a multiple that is not a product of small primes)
+                ('CORRELOGRAMPSD(long)', lambda n: sp.CORRELOGRAMPSD(x.copy(), lag=7, NFFT=n, window='hamming', norm='biased'),
+                 [(15, 2), (16, 8), (255, 64), (next_prime(4097), 2)]),
+                ('minvar(long)', lambda n: sp.minvar(x.copy(), 4, NFFT=n)[0], [(2048, 2), (4096, 2), (127, 3)]),
+                ('music(long)', lambda n: eigen(x.copy(), 8, NSIG=2, method='music', NFFT=n)[0], [(next_prime(4097), 2), (128, 3)]),
+                ('Periodogram(long)', lambda n: np.array(zoo.build('Periodogram', x.copy(), n).psd), [(pr, 2), (NL + 1, 13)]),
+                ('pcorrelogram(long)', lambda n: np.array(zoo.build('pcorrelogram', x.copy(), n, corrlag=7).psd), [(16, 8), (4097, 2)]),
+                ('pminvar(long)', lambda n: np.array(zoo.build('pminvar', x.copy(), n).psd), [(4096, 2)]),
+                ('pburg(long)', lambda n: np.array(zoo.build('pburg', x.copy(), n).psd), [(4096, 2), (4097, 3)]),
+            ]
+            for fname, f, pairs in long_forms:
+                for nfft, c in pairs:
+                    ev = {'ev': 'grid', 'cls': fname, 'dt': dt, 'N': NL, 'nfft': nfft, 'c': c, 'lag': 0, 'order': 0}
+                    ok1, a = call_guard(f, nfft)
+                    ok2, b = call_guard(f, c * nfft)
+                    ev['raised'] = not (ok1 and ok2)
+                    if ok1 and ok2:
+                        a, b = np.asarray(a), np.asarray(b)
+                        ia = np.arange(len(a))
+                        ib = (ia - nfft // 2) * c + (c * nfft) // 2 if fname.startswith('music') else ia * c
+                        half = lambda n_: n_ // 2 + 1 if n_ % 2 == 0 else (n_ + 1) // 2
+                        # both results in the same layout: two-sided (NFFT values) or, real data, one-sided
+                        ev['len_ok'] = bool((len(a) == nfft and len(b) == c * nfft) or (dt == 'real' and len(a) == half(nfft) and len(b) == half(c * nfft)))
+                        ev['dev'] = obs.q(np.max(np.abs(b[ib] - a[ia])) / max(float(np.max(np.abs(a))), 1e-300)) if ib.max() < len(b) and ib.min() >= 0 else obs.QCAP
+                        ev['par_dev'] = 0
+                    else:
+                        ev.update(len_ok=False, dev=0, par_dev=0)
+                    batch.add(ev, {'form': fname, 'dt': dt, 'N': NL, 'nfft': nfft, 'c': c, 'seed': chk.seed})
     obs.validate(chk, batch, 'obs-grids', lambda ev, cl: 'C05:%s:%s:%s:%s' % (ev['cls'], ev['dt'], 'odd' if ev['nfft'] % 2 else 'even', cl),
                  lambda ev, cl: '%s (%s) NFFT=%d vs %d*NFFT: clause "%s" fails: %s' % (ev['cls'], ev['dt'], ev['nfft'], ev['c'], cl, ev))
     chk.sample('obs-event', batch.events[0], 1)
